@@ -20,6 +20,7 @@ import TLX.Drv.CryptoStream
 import TLX.Drv.UdpOut
 import TLX.Drv.TlsMsgs
 import TLX.Drv.Dissect
+import TLX.Drv.MainLoop
 
 def main (args : List String) : IO UInt32 := do
   match args with
@@ -40,4 +41,5 @@ def main (args : List String) : IO UInt32 := do
   | ["cryptostream"] => TLX.Drv.CryptoStream.main; return 0
   | ["udpout"] => TLX.Drv.UdpOut.main; return 0
   | ["tlsmsgs"] => TLX.Drv.TlsMsgs.main; return 0
+  | ["mainloop"] => TLX.Drv.MainLoop.main; return 0
   | _ => IO.eprintln "usage: tlxdriver <module>"; return 2
